@@ -1,3 +1,156 @@
 import Driver.Common
--- stub driver for C20 (replaced when the property's model is built)
-def main (args : List String) : IO UInt32 := Driver.main' (fun _ => "bad-op") (fun _ _ => "fail bad-op") args
+import GilVerif.Model.C20
+open Driver GilVerif.Model.C20
+
+def showPts (ps : List Pt) : String := " ".intercalate (ps.map (fun p => toString p.1 ++ " " ++ toString p.2))
+
+def pairs : List Int → Option (List Pt)
+  | [] => some []
+  | x :: y :: r => (pairs r).map (fun t => (x, y) :: t)
+  | _ => none
+
+def dedup (ps : List Pt) : List Pt := ps.foldl (fun acc p => if acc.contains p then acc else p :: acc) []
+
+def scanLt (p q : Pt) : Bool := p.2 < q.2 || (p.2 == q.2 && p.1 < q.1)
+def scanSort (ps : List Pt) : List Pt := (ps.toArray.qsort scanLt).toList
+
+def PADc : Int := 3
+
+/-- what the canary harness prints for a point list painted into a W×H view -/
+def applyObs (W H : Int) (pts : List Pt) (listInside : Bool) : String :=
+  if pts.any (fun p => p.1 < -PADc || p.1 ≥ W + PADc || p.2 < -PADc || p.2 ≥ H + PADc) then "beyond-canary-margin" else
+  let d := dedup pts
+  let ins := d.filter (inView W H)
+  let outs := d.filter (fun p => !inView W H p)
+  let asserts := pts.foldl (fun acc p => acc + (if p.1 < 0 || p.1 ≥ W then 1 else 0) + (if p.2 < 0 || p.2 ≥ H then 1 else 0)) 0
+  let lst := scanSort (if listInside then ins else outs)
+  let body := toString ins.length ++ " " ++ toString outs.length ++ (if lst.isEmpty then "" else " " ++ showPts lst)
+  body ++ " a " ++ toString asserts
+
+def trajObs (pc : Int) (pts : List Pt) : String :=
+  toString pc ++ " " ++ toString pts.length ++ (if pts.isEmpty then "" else " " ++ showPts pts)
+
+def model (line' : String) : String :=
+  match words line' with
+  | ["line", a, b, c, d] =>
+    match ints [a, b, c, d] with
+    | some [x0, y0, x1, y1] => trajObs (pointCount (x0, y0) (x1, y1)) (line (x0, y0) (x1, y1))
+    | _ => "bad-op"
+  | ["linex", a, b, c, d] =>       -- exact-arithmetic error term (equals the double code when every partial sum is exact)
+    match ints [a, b, c, d] with
+    | some [x0, y0, x1, y1] => trajObs (pointCount (x0, y0) (x1, y1)) (lineExact (x0, y0) (x1, y1))
+    | _ => "bad-op"
+  | ["mcirc", a, b, c] =>
+    match ints [a, b, c] with
+    | some [cx, cy, r] => trajObs (8 * midN r) (midCircle (cx, cy) r)
+    | _ => "bad-op"
+  | ["tcirc", a, b, c] =>
+    match ints [a, b, c] with
+    | some [cx, cy, r] => trajObs (8 * trigN r) (trigCircle (cx, cy) r)
+    | _ => "bad-op"
+  | ["ell", a, b, c, d] =>
+    match ints [a, b, c, d] with
+    | some [_, _, sa, sb] =>
+      let (t, bad) := ellTrajectory sa sb
+      if bad then "model-fuel-exhausted" else toString t.length ++ (if t.isEmpty then "" else " " ++ showPts t)
+    | _ => "bad-op"
+  | ["aline", _, a, b, c, d] =>
+    match ints [a, b, c, d] with
+    | some [x0, y0, x1, y1] =>
+      let bx := min x0 x1; let by' := min y0 y1
+      applyObs (iabs (x1 - x0) + 1) (iabs (y1 - y0) + 1) (line (x0 - bx, y0 - by') (x1 - bx, y1 - by')) false
+    | _ => "bad-op"
+  | ["acirc", _, k, a] =>
+    match ints [a] with
+    | some [r] => applyObs (2 * r + 1) (2 * r + 1) (if k == "m" then midCircle (r, r) r else trigCircle (r, r) r) false
+    | _ => "bad-op"
+  | ["aell", _, a, b, c, d, e, f] =>
+    match ints [a, b, c, d, e, f] with
+    | some [cx, cy, sa, sb, W, H] =>
+      let (t, bad) := ellTrajectory sa sb
+      if bad then "model-fuel-exhausted" else applyObs W H (drawCurve cx cy W H t) true
+    | _ => "bad-op"
+  | _ => "bad-op"
+
+/-- split `… a k` -/
+def splitA (ws : List String) : List String × List String :=
+  (ws.takeWhile (· ≠ "a"), (ws.dropWhile (· ≠ "a")).drop 1)
+
+def judge (op obs : String) : String :=
+  let fail (s : String) := "fail " ++ s
+  let bad := fail ("not-a-value:" ++ (obs.take 40).toString)
+  match words op with
+  | [kind, a, b, c, d] =>
+    if kind == "line" || kind == "linex" then
+      match ints [a, b, c, d], ints (words obs) with
+      | some [x0, y0, x1, y1], some (pc :: n :: rest) =>
+        match pairs rest with
+        | some pts =>
+          let s : Pt := (x0, y0); let e : Pt := (x1, y1)
+          if n ≠ pc ∨ (pts.length : Int) ≠ n ∨ !specCount s e pts then fail "count"
+          else if !specEnds s e pts then fail "endpoints"
+          else if !specMajor s e pts then fail "major-monotone"
+          else if !specConn pts then fail "connected"
+          else if !specBBox s e pts then fail "bbox"
+          else if !specNear s e pts then fail "within-one-pixel"
+          else "ok"
+        | none => bad
+      | _, _ => bad
+    else if kind == "ell" then
+      match ints [a, b, c, d], ints (words obs) with
+      | some [_, _, sa, sb], some (n :: rest) =>
+        match pairs rest with
+        | some pts =>
+          if (pts.length : Int) ≠ n ∨ pts.isEmpty then fail "count"
+          else if !specEllBBox sa sb pts then fail "bbox"
+          else if !specEllNear sa sb pts then fail "within-one-pixel"
+          else "ok"
+        | none => bad
+      | _, _ => bad
+    else fail "bad-op"
+  | [kind, a, b, c] =>
+    if kind == "mcirc" || kind == "tcirc" then
+      match ints [a, b, c], ints (words obs) with
+      | some [cx, cy, r], some (pc :: n :: rest) =>
+        match pairs rest with
+        | some pts =>
+          if n ≠ pc ∨ (pts.length : Int) ≠ n ∨ pc % 8 ≠ 0 ∨ pc < 8 then fail "count"
+          else if !specSym8 (cx, cy) pts then fail "symmetric"
+          else if !specCircleBBox (cx, cy) r pts then fail "bbox"
+          else if !specCircleNear (cx, cy) r pts then fail "within-one-pixel"
+          else "ok"
+        | none => bad
+      | _, _ => bad
+    else if kind == "acirc" then
+      let (v, k) := splitA (words obs)
+      match ints v, ints k with
+      | some (nin :: nout :: _), some [na] =>
+        if nout ≠ 0 ∨ na ≠ 0 then fail "bbox-apply" else if nin < 1 then fail "count" else "ok"
+      | _, _ => bad
+    else fail "bad-op"
+  | ["aline", _, _, _, _, _] =>
+    let (v, k) := splitA (words obs)
+    match ints v, ints k with
+    | some (nin :: nout :: _), some [na] =>
+      if nout ≠ 0 ∨ na ≠ 0 then fail "bbox-apply" else if nin < 1 then fail "count" else "ok"
+    | _, _ => bad
+  | ["aell", _, a, b, c, d, e, f] =>
+    let (v, k) := splitA (words obs)
+    match ints [a, b, c, d, e, f], ints v, ints k with
+    | some [cx, cy, sa, sb, W, H], some (nin :: nout :: rest), some [na] =>
+      match pairs rest with
+      | some pts =>
+        let c : Pt := (cx - 1, cy - 1)
+        let rel := pts.map (fun p => (p.1 - c.1, p.2 - c.2))
+        let whole := decide (c.1 - sa ≥ 0) && decide (c.1 + sa < W) && decide (c.2 - sb ≥ 0) && decide (c.2 + sb < H)
+        if nout ≠ 0 ∨ na ≠ 0 ∨ !pts.all (inView W H) then fail "clipped"
+        else if (pts.length : Int) ≠ nin then fail "count"
+        else if !rel.all (inBox (-sa, -sb) (sa, sb)) then fail "bbox"
+        else if !specEllNear sa sb rel then fail "within-one-pixel"
+        else if whole && (!specSym4 c pts || pts.isEmpty) then fail "symmetric"
+        else "ok"
+      | none => bad
+    | _, _, _ => bad
+  | _ => fail "bad-op"
+
+def main (args : List String) : IO UInt32 := Driver.main' model judge args
